@@ -29,7 +29,7 @@ EXPLANATION = ("Who-may-mutate and guard (control-dependence) queries over the M
                "enumerated from resolved Vec method calls and their index operands traced to the lookup result; accept/reset emission "
                "sites are checked for their guards; public operations are checked for lookup dominance.")
 CONFIGS = ['def', 'alloc', 'def-rel']    # these drivers need the `alloc` feature
-FLOORS = {'listen_inserts': 1, 'selection_predicates': 2, 'table_mutations': 4, 'public_ops': 6}
+FLOORS = {'listen_inserts': 1, 'selection_predicates': 2, 'table_mutations': 2, 'public_ops': 6}
 MGR = 'device::socket::connectionmanager::VsockConnectionManager'
 VEC = 'alloc::vec::Vec::<T, A>::'
 VEC2 = 'alloc::vec::Vec::<T>::'
@@ -86,6 +86,19 @@ def canon_path(F, t, side, S=None, captured=None, fn=None):
             return of_loc(t[1], side)
         if t[0] == 'refto':
             return go(t[1], side)
+        if t[0] == 'field' and isinstance(t[2], str):
+            r = go(t[1], side)
+            if r is None:
+                return None
+            base, fs = r
+            fs = list(fs) + [t[2]]
+            if base == 'env' and side == 'closure' and fs and fs[0].isdigit():
+                k = int(fs[0])
+                if captured is None or k >= len(captured):
+                    return None
+                r2 = go(captured[k], 'parent')
+                return None if r2 is None else (r2[0], list(r2[1]) + fs[1:])
+            return (base, fs)
         if t[0] in ('conv', 'idcall'):
             return go(t[2], side)
         if t[0] == 'cast':
